@@ -3,6 +3,9 @@
 
 pub mod common;
 pub mod evidence;
+pub mod model;
 pub mod net;
+pub mod poolsim;
+pub mod world;
 pub mod wire;
 pub mod props;
